@@ -258,6 +258,14 @@ def main():
     r0 = tlc.run("WrapperObject", "WrapperObject.cfg", workers=2, timeout=300)
     rep.count("states", r0.distinct)
     rep.count("transitions", r0.generated)
+    if thorough:
+        # the same machine over six files and histories of six calls
+        rd = tlc.run("WrapperObject", cfg_text='SPECIFICATION Spec\nCONSTANTS\n  Files = {"f1", "f2", "f3", "f4", "f5", "f6"}\n'
+                     '  MaxLen = 6\n  Leaks = FALSE\nINVARIANT HistoryIndependent\nCHECK_DEADLOCK FALSE\n',
+                     workers=common.NCPU, timeout=900)
+        rep.count("states", rd.distinct)
+        rep.count("transitions", rd.generated)
+        rep.cov["history_model_deep"] = {"distinct_states": rd.distinct, "depth": rd.depth}
     xmldir = tempfile.mkdtemp(prefix="c14xml_")
     tmproot = tempfile.mkdtemp(prefix="c14_")
     try:
